@@ -53,8 +53,15 @@ def cases(tier, seed):
         for k in (2, 3, 4):
             for sd in range(3 if thorough else 2):
                 recs.append(['named', 'late_merge_k', n, k, seed * 10 + sd])
+    for t in range(600 if thorough else 200):
+        n = int(rs.randint(10, 90))
+        recs.append(['named', 'late_hub_tree', n, int(rs.randint(1 << 30))])
     for i, g in enumerate(recs):
-        out.append({'g': g, 'ws': seed * 100 + i, 'kind': 'und'})
+        out.append({'g': g, 'ws': seed * 100 + i, 'kind': 'und', 'lite': i > 400})
+    # brute force over sparse labelled trees / forests: overlapping partial components that are not re-merged
+    # need several late multi-way merges in an unlucky order (measured rate of a seeded fault: ~5e-4 per tree)
+    for t in range(1600 if thorough else 160):
+        out.append({'kind': 'tree_batch', 'count': 250, 'nlo': 30, 'nhi': 90, 'rs': int(rs.randint(1 << 30)), 'forest': t % 4 == 3})
     for t in range(30 if thorough else 10):
         out.append({'g': ['er', int(rs.randint(3, 12)), .3, True, int(rs.randint(1 << 30))], 'ws': t, 'kind': 'asym'})
     return out
@@ -85,7 +92,36 @@ def late_merge_measure(A):
     return last
 
 
+def run_batch(case, bct, REC):
+    rs = np.random.RandomState(case['rs'])
+    for t in range(case['count']):
+        n = int(rs.randint(case['nlo'], case['nhi']))
+        A = G.prufer_tree(n, int(rs.randint(1 << 30)))
+        if case['forest']:
+            i, j = np.where(np.triu(A, 1))
+            for a, b in zip(i, j):
+                if rs.rand() < .08:
+                    A[a, b] = A[b, a] = 0
+        REC.tag(PROP, 'exec')
+        lab, m = O.components(A)
+        ok, res = call(REC, PROP, 'get_components', bct.get_components, A)
+        if not ok:
+            continue
+        comps, sizes = np.asarray(res[0]), np.asarray(res[1])
+        det = {'A': A, 'comps': comps, 'sizes': sizes, 'variant': 'tree_batch'}
+        shape_ok = comps.shape == (n,)
+        REC.check(PROP, 'get_components', 'comembership', shape_ok and bool(np.array_equal(O.comembership(comps), O.comembership(lab))), det)
+        REC.check(PROP, 'get_components', 'labels_1_to_m', shape_ok and bool(np.array_equal(np.unique(comps), np.arange(1, m + 1))), det)
+        REC.check(PROP, 'get_components', 'sizes', shape_ok and len(sizes) == m and
+                  all(int(sizes[int(l) - 1]) == int((comps == l).sum()) for l in np.unique(comps) if 1 <= l <= len(sizes)), det)
+        if late_merge_measure(A) >= 3 or m >= 2:
+            REC.note_nontrivial(PROP, A)
+    REC.tag(PROP, 'tree_batch_graphs', case['count'])
+
+
 def run(case, bct, REC):
+    if case['kind'] == 'tree_batch':
+        return run_batch(case, bct, REC)
     A = G.build(case['g'])
     n = len(A)
     if case['kind'] == 'asym':
@@ -108,6 +144,8 @@ def run(case, bct, REC):
     Wd = W.copy()
     np.fill_diagonal(Wd, rs.randint(0, 3, size=n).astype(float))
     variants += [('signed_weights', W), ('nonzero_diagonal', Wd)]
+    if case.get('lite'):
+        variants = variants[:1]
     lab, m = O.components(A)
     co = O.comembership(lab)
     for vname, X in variants:
@@ -128,7 +166,7 @@ def run(case, bct, REC):
         ok2, nc = call(REC, PROP, 'number_of_components', bct.number_of_components, X)
         if ok2:
             REC.check(PROP, 'number_of_components', 'count', int(nc) == m, dict(det, got=nc, expected=m))
-        if vname == 'bin' and shape_ok:
+        if vname == 'bin' and shape_ok and not case.get('lite'):
             cm = O.comembership(comps)
             off = ~np.eye(n, dtype=bool)
             try:
